@@ -393,7 +393,8 @@ def invoke(runner, cli, args, limit=20):
 
 
 def read_tsv(text):
-    return [row for row in csv.reader(io.StringIO(text), delimiter="\t", quoting=csv.QUOTE_NONE)]
+    # default (minimal) quoting: pandas writes a lone empty field as "" so that the line is not blank
+    return [row for row in csv.reader(io.StringIO(text), delimiter="\t")]
 
 
 def model_lines(val, opt):
@@ -544,6 +545,8 @@ def run_dump(ctx, runner, cli, thorough):
         o = default_opts(); o["columns"] = ["bin2_id"]; o["ids1"] = True; o["header"] = True; opts.append(o)
         o = default_opts(); o["header"] = True; o["r"] = regions[-1]; opts.append(o)
         o = default_opts(); o["header"] = True; o["fill"] = True; o["r"] = regions[-1]; o["r2"] = regions[0]; opts.append(o)
+        if cool.weights is not None:      # a lone NaN field is written as "" by to_csv (found by the thorough tier)
+            o = default_opts(); o["balanced"] = True; o["columns"] = ["balanced"]; opts.append(o)
         # malformed stream: unknown column, unknown annotation, balanced without weights
         o = default_opts(); o["columns"] = ["nope"]; opts.append(o)
         o = default_opts(); o["annotate"] = ["nope"]; opts.append(o)
@@ -556,6 +559,13 @@ def run_dump(ctx, runner, cli, thorough):
     pre = "\n".join(f"Definition cool{ci} := {cool.coq()}." for ci, cool in enumerate(cools))
     exprs = [f"dump_obs cool{ci} {coq_opts(o)}" for ci, o in jobs]
     mvals = C.coq_eval(IMPORTS, exprs, preamble=pre, tmpdir=ctx.tmp / "dumpv", shard=400, jobs=4)
+    # the generated coolers satisfy the hypotheses of the theorems (SSorted, Upper when symmetric, bins_ok_b, in range)
+    hyp = C.coq_eval(IMPORTS, [f"(ssorted_b (d_px cool{ci}), (if d_symm cool{ci} then upper_b (d_px cool{ci}) else true), "
+                               f"bins_ok_b (d_bins cool{ci}) (d_names cool{ci}), inrange_b (zlen (d_bins cool{ci})) (d_px cool{ci}))"
+                               for ci in range(len(cools))], preamble=pre, tmpdir=ctx.tmp / "hypv", jobs=1)
+    for ci, h in enumerate(hyp):
+        if list(h) != [True, True, True, True]:
+            ctx.disagree("generator produced a cooler outside the theorems' hypotheses", {"kind": "hypotheses", "cool": cools[ci].spec()}, [True] * 4, list(h))
     # ---- implementation
     uris, clrs = [], []
     for ci, cool in enumerate(cools):
